@@ -243,23 +243,15 @@ def r_who_writes(root):
             if isinstance(n, ast.Assign) and any(isinstance(tg, ast.Attribute) and tg.attr == "_tx_model_params" for tg in n.targets):
                 inst += 1; q = qualname(n)
                 ok = rel == "textx/metamodel.py" and q.endswith("kwargs_callback")
+                if not ok and rel == "textx/metamodel.py":
+                    # a private helper that only the kwargs_callback closures call (the store moved into it)
+                    ef = enclosing_func(n)
+                    sites = [c for f2 in files for c in calls(load(root, f2)) if ef is not None and callee_name(c) == ef.name] if ef is not None and ef.name.startswith("_") else []
+                    ok = bool(sites) and all((qualname(c) or "").split(".")[-1] == "kwargs_callback" or "kwargs_callback" in (qualname(c) or "") for c in sites)
                 ob("C27", "C27.e", rel, q, " ".join(ast.unparse(n).split())[:80], ok)
                 if not ok: out.append(Finding("C27", "C27.e", rel, q, " ".join(ast.unparse(n).split())[:90], "a model's parameters are overwritten outside its creation: a model cached in the repository then shows the parameters of a later load while the models it imported keep those of the first", witness="global_repository=True; the same main file loaded twice with different parameters"))
-    if inst < 2: raise AnalysisError("stores of _tx_model_params: only %d found" % inst)
-    # ---- C07.d
-    fn = find_i(root, M, "ReferenceResolver.resolve_one_step"); fi = sem.info(fn); cfg = fi.cfg
-    fb = [n for n in cfg.nodes if n.kind == "stmt" and isinstance(n.ast, ast.Assign) and "builtins[" in ast.unparse(n.ast.value)]
-    book = [n for n in cfg.nodes if n.ast is not None and n.kind == "stmt" and any(callee_name(c) == "RefRulePosition" for c in calls(n.ast))]
-    if not fb or not book: raise AnalysisError("resolve_one_step: builtins fallback / tool bookkeeping not found")
-    inst += 1
-    heads = [n for n in cfg.nodes if n.kind == "loop"]
-    p = None
-    for a in fb:
-        for b in book:
-            p = p or cfg.paths_avoiding(a, b, lambda m: m in heads)
-    ob("C07", "C07.d", M, "ReferenceResolver.resolve_one_step", "tool bookkeeping not reachable from the builtins fallback within one iteration", p is None)
-    if p is not None:
-        for pr in ("C07", "C34"): out.append(Finding(pr, "C07.d", M, "ReferenceResolver.resolve_one_step", " ".join(ast.unparse(fb[0].ast).split())[:80], "a reference bound to a builtin (a plain Python object) reaches the tool-support bookkeeping, which reads _tx_position / _tx_filename of the target: loading fails with AttributeError instead of resolving to the builtin", witness="textx_tools_support=True and a reference that only builtins can resolve"))
+    if inst < 1: raise AnalysisError("stores of _tx_model_params: none found")
+    # ---- C07.d (builtin targets and the tool bookkeeping) is decided by evaluation: C34.h, sa/rules/cres.py
     # ---- C25.h
     vr = find_i(root, "textx/lang.py", "TextXVisitor.visit_rule_name"); fiv = sem.info(vr)
     rs = [r for r in own_nodes(vr) if isinstance(r, ast.Raise) and "redefined imported rule" in ast.unparse(r)]
